@@ -12,5 +12,10 @@ for f in theirs.get("findings", []):
 for f in theirs.get("fixed", []):
     if f not in out["fixed"]:
         out["fixed"].append(f)
+# former findings that were repaired since: never re-added by a branch that still carries an older copy of the file
+from pathlib import Path as _P
+_t = _P(__file__).with_name("removed_findings.json")
+gone = {tuple(x) for x in json.loads(_t.read_text())} if _t.exists() else set()
+out["findings"] = [f for f in out["findings"] if (f["property"], f["signature"]) not in gone]
 open("/verif/known_findings.json", "w").write(json.dumps(out, indent=1) + "\n")
 print(len(out["findings"]), "findings", len(out["fixed"]), "fixed")
